@@ -19,7 +19,7 @@ RULE = ('generated documents of three schema families (varying depth / width; ID
         '(several parser read buffers); a case = (document, '
         'lazy depth, thin, api); distinct non-trivial = distinct (family, fault kind, api, thin) combinations with at '
         'least two root children (several chunks)')
-RULE += (' ' + 'Long documents (shop, flat) carry identity faults at their end (a part the streaming reader meets after many chunks); iterfind with a positional predicate is compared too (thin_lazy=True: listed finding).')
+RULE += (' ' + 'Shard chunkns: namespace declarations made on the streamed chunk itself and used by its xsi:type and QName values. Long documents (shop, flat) carry identity faults at their end (a part the streaming reader meets after many chunks); iterfind with a positional predicate is compared too (thin_lazy=True: listed finding).')
 ASSUMPTIONS = [
     'lazy errors deliberately carry no element: errors are compared on (reason) in order, not on .elem / .path',
     'lazy decode returns generators for the streamed parts: compared after full materialisation',
@@ -46,6 +46,7 @@ def plan(tier, seed):
     shards = 16 if tier == 'quick' else 48
     specs = [{'kind': 'gen', 'docs': ndocs // shards, 'gshard': s} for s in range(shards)]
     specs.append({'kind': 'corpus'})
+    specs.append({'kind': 'chunkns', 'docs': 40 if tier == 'quick' else 400})
     return specs
 
 
@@ -213,7 +214,12 @@ def eager_iter_depth(xmlschema, text, depth):
     return out
 
 
-def compare_document(res, xmlschema, schema, text, tag, case, rng, tier, scratch, nchunks):
+def strip_xmlns(text):
+    import re
+    return re.sub(r"'@xmlns(:\w+)?': '[^']*'(, )?", '', str(text)).replace(', }', '}')
+
+
+def compare_document(res, xmlschema, schema, text, tag, case, rng, tier, scratch, nchunks, error_order=True):
     data = text.encode('utf-8')
     path = os.path.join(scratch, 'doc.xml')
     with open(path, 'wb') as f:
@@ -254,6 +260,13 @@ def compare_document(res, xmlschema, schema, text, tag, case, rng, tier, scratch
                             res.count(f'explored_not_claimed:depth{depth}:raised:{type(e).__name__}')
                         continue
                     same = got == eager[api]
+                    if not same and not error_order:
+                        # (an unresolvable xsi:type is reported once by the parent's content model and once by the
+                        # element: the lazy run reports the same errors, in another order)
+                        if api in ('iter_errors', 'errors_named') and isinstance(got, list):
+                            same = sorted(map(str, got)) == sorted(map(str, eager[api]))
+                        elif api == 'decode_lax' and got[:2] == eager[api][:2]:
+                            same = sorted(got[2]) == sorted(eager[api][2])
                     if api == 'iter' and not same:
                         # the property speaks of the same elements; the order inside a streamed chunk is reported only
                         same = sorted(got) == sorted(eager[api])
@@ -268,6 +281,10 @@ def compare_document(res, xmlschema, schema, text, tag, case, rng, tier, scratch
                             mech = f'lazy-differs:{api}'
                             if api == 'find_positional' and thin:
                                 mech = 'thin-lazy-positional-predicate-counts-only-siblings-still-in-memory'
+                            if api == 'decode_lax' and got[0] == eager[api][0] and got[1] != eager[api][1] and \
+                                    sorted(got[2]) == sorted(eager[api][2]) and \
+                                    sorted(strip_xmlns(x) for x in got[1]) == sorted(strip_xmlns(x) for x in eager[api][1]):
+                                mech = 'lazy-decode-drops-namespace-declarations-of-streamed-chunk'
                             if api == 'decode_lax' and got[:2] == eager[api][:2]:
                                 missing = [r for r in eager[api][2] if r not in got[2]]
                                 extra = [r for r in got[2] if r not in eager[api][2]]
@@ -367,8 +384,48 @@ def run_corpus(spec, res):
         res.count('corpus:documents')
 
 
+CHUNKNS_XSD = f'''<xs:schema xmlns:xs="http://www.w3.org/2001/XMLSchema" targetNamespace="urn:vk:cn" xmlns:t="urn:vk:cn">
+<xs:complexType name="base"><xs:sequence><xs:element name="v" type="xs:QName" minOccurs="0" maxOccurs="unbounded"/></xs:sequence>
+  <xs:attribute name="q" type="xs:QName"/></xs:complexType>
+<xs:complexType name="ext"><xs:complexContent><xs:extension base="t:base"><xs:attribute name="z" type="xs:int"/></xs:extension></xs:complexContent></xs:complexType>
+<xs:element name="root"><xs:complexType><xs:sequence>
+  <xs:element name="item" type="t:base" maxOccurs="unbounded"/></xs:sequence><xs:attribute name="q" type="xs:QName"/></xs:complexType></xs:element>
+</xs:schema>'''
+
+
+def run_chunkns(spec, res):
+    """Namespace declarations made on the streamed chunk itself (the depth-1 child) and used by QName values and by the
+    xsi:type of that same element, of its children and - wrongly - of its following siblings."""
+    xmlschema = env.activate_repo()
+    rng = env.rng_for(PROPERTY, spec['tier'], spec['seed'], 'chunkns')
+    scratch = tempfile.mkdtemp(prefix='c06-')
+    XSI = 'http://www.w3.org/2001/XMLSchema-instance'
+    for version, cls in (('1.0', xmlschema.XMLSchema10), ('1.1', xmlschema.XMLSchema11)):
+        schema = cls(CHUNKNS_XSD)
+        for d in range(spec['docs']):
+            items = []
+            bound_on_root = rng.random() < 0.3
+            for i in range(rng.randint(1, 4)):
+                own = rng.random() < 0.6            # the chunk declares the prefix p itself
+                attrs = ' xmlns:p="urn:vk:cn"' if own else ''
+                uses_p = own or bound_on_root or rng.random() < 0.25     # the last: p not in scope => an error in both runs
+                if rng.random() < 0.5:
+                    attrs += f' xsi:type="{"p" if uses_p else "r"}:ext" z="1"'
+                if rng.random() < 0.5:
+                    attrs += f' q="{"p" if uses_p else "r"}:zz"'
+                kids = ''.join(f'<v>{"p" if uses_p and rng.random() < 0.7 else "r"}:k{j}</v>' for j in range(rng.choice((0, 0, 1, 2))))
+                items.append(f'<item{attrs}>{kids}</item>' if kids else f'<item{attrs}/>')
+            text = (f'<r:root xmlns:r="urn:vk:cn" xmlns:xsi="{XSI}"' + (' xmlns:p="urn:vk:cn"' if bound_on_root else '') +
+                    (' q="r:top"' if rng.random() < 0.3 else '') + '>' + ''.join(items) + '</r:root>')
+            fault = 'valid' if schema.is_valid(text) else 'prefix_out_of_scope'
+            case = {'family': 'chunkns', 'version': version, 'doc': text, 'fault': fault}
+            res.count('chunkns:documents:' + fault)
+            compare_document(res, xmlschema, schema, text, ('chunkns', fault), case, rng, spec['tier'], scratch, len(items),
+                             error_order=fault == 'valid')
+
+
 def run_shard(spec, res):
-    {'gen': run_gen, 'corpus': run_corpus}[spec['kind']](spec, res)
+    {'gen': run_gen, 'corpus': run_corpus, 'chunkns': run_chunkns}[spec['kind']](spec, res)
 
 
 def finalize(res, tier):
